@@ -1,3 +1,3 @@
 SPECIFICATION Spec
-CONSTANTS MaxJobs = 2  MaxFail = 0  GenDepth = 0  WeakDeps = FALSE  WeakOnce = TRUE  WeakBound = FALSE
+CONSTANTS MaxJobs = 2  MaxFail = 0  GenDepth = 0  WeakDeps = FALSE  WeakOnce = TRUE  WeakBound = FALSE  Dags = {1, 2, 3, 4, 5, 6}
 INVARIANT NoDoubleExec
